@@ -139,10 +139,164 @@ func (vt *v2T) scenC01() {
 				planted = append(planted, all[vt.rng.Intn(len(all))])
 			}
 			vt.plantCase(c, planted, q)
+			if len(planted) > 1 || vt.rng.Intn(6) == 0 {
+				vt.plantSharedLines(c, planted, q)
+			}
+		}
+		// copies of two RELATED documents in one file (same family: versions, variants, headers of one license): for each of
+		// them the other's copy is a second, longer or shorter, range that scores below the threshold or is vetoed
+		if ci == 0 || (vt.thorough() && ci < 5) {
+			fam := func(n string) string {
+				f := strings.SplitN(n, "-", 2)[0]
+				if f == "LGPL" || f == "AGPL" {
+					f = "GPL"
+				}
+				return f
+			}
+			byFam := map[string][]int{}
+			for i, d := range docs {
+				if len(d.Data) < 6000 {
+					byFam[fam(d.Name)] = append(byFam[fam(d.Name)], i)
+				}
+			}
+			var fams []string
+			for f, l := range byFam {
+				if len(l) > 1 {
+					fams = append(fams, f)
+				}
+			}
+			sort.Strings(fams)
+			find := func(key string) v2Doc {
+				for _, d := range docs {
+					if d.Key == key {
+						return d
+					}
+				}
+				panic("no corpus document " + key)
+			}
+			pairs := [][2]v2Doc{{find("Header/GPL-2.0/j.txt"), find("Header/GPL-3.0/header.txt")}, {find("Header/GPL-3.0/header.txt"), find("Header/GPL-2.0/j.txt")},
+				{find("Header/GPL-2.0/k.txt"), find("Header/LGPL-3.0/b.txt")}}
+			np := 40
+			if vt.thorough() {
+				np = 500
+			}
+			for k := 0; k < np; k++ {
+				l := byFam[fams[vt.rng.Intn(len(fams))]]
+				a, b := l[vt.rng.Intn(len(l))], l[vt.rng.Intn(len(l))]
+				if a != b {
+					pairs = append(pairs, [2]v2Doc{docs[a], docs[b]})
+				}
+			}
+			for _, pr := range pairs {
+				vt.plantCase(c, []v2Doc{pr[0], pr[1]}, q)
+			}
+			vt.reset(false)
 		}
 		vt.reset(false)
 	}
 	vt.scenC01Composite()
+	vt.probeC01()
+}
+
+// plantSharedLines: the copies follow each other on the same physical lines -- "<junk> copy1 <junk> copy2 <junk>" with no line
+// break around the junk, so that copy k+1 starts on the line copy k ends on.  Every copy spans at least two lines (a copy whose
+// only line lies inside a longer copy's line range is the open finding C01-copy-inside-lines-of-heavier-copy, see probeC01).
+// Positions come from the pieces: tokens are counted per piece, a piece's line L is line L + (line breaks before the piece).
+func (vt *v2T) plantSharedLines(c *v2C, planted []v2Doc, q int) {
+	var buf bytes.Buffer
+	type pl struct {
+		d              v2Doc
+		st, et, sl, el int
+	}
+	var pls []pl
+	var want []string
+	tokOff, lineOff := 0, 0
+	put := func(b []byte, d *v2Doc) bool {
+		doc := c.tokens(b)
+		n := len(doc.Tokens)
+		if d != nil {
+			if n < q || n == 0 || doc.Tokens[0].Line == doc.Tokens[n-1].Line {
+				return false
+			}
+			for _, alias := range append([]v2Doc{*d}, func() []v2Doc {
+				if ak, ok := vt.aliasOf[d.Key]; ok {
+					return []v2Doc{vt.byKey[ak]}
+				}
+				return nil
+			}()...) {
+				pls = append(pls, pl{alias, tokOff, tokOff + n - 1, lineOff + doc.Tokens[0].Line, lineOff + doc.Tokens[n-1].Line})
+			}
+		}
+		for _, t := range doc.Tokens {
+			want = append(want, c.c.dict.getWord(t.ID))
+		}
+		buf.Write(b)
+		tokOff += n
+		lineOff += bytes.Count(b, []byte("\n"))
+		return true
+	}
+	put(vt.oovBlock(c, 3), nil)
+	put([]byte(vt.oovWord(c)+" "), nil)
+	for i := range planted {
+		body := bytes.TrimRight(planted[i].Data, " \t\r\n")
+		body = bytes.TrimLeft(body, " \t\r\n")
+		if !put(body, &planted[i]) {
+			return
+		}
+		put([]byte(" "+vt.oovWord(c)+" "), nil)
+	}
+	put([]byte(vt.oovWord(c)+"\n"), nil)
+	put(vt.oovBlock(c, 3), nil)
+	data := buf.Bytes()
+	// the pieces must tokenise as they do alone (a first word that is a list marker at a line start, a first line that is a
+	// notice only when it stands alone, a last word ending in a hyphen ... change when the copy is not on lines of its own)
+	whole := c.tokens(data)
+	same := len(whole.Tokens) == len(want)
+	for i := 0; same && i < len(want); i++ {
+		same = c.c.dict.getWord(whole.Tokens[i].ID) == want[i]
+	}
+	if !same {
+		vt.emit(map[string]interface{}{"ev": "skip", "why": "pieces do not tokenise independently when they share lines", "doc": planted[0].Key})
+		return
+	}
+	in := fmt.Sprintf("i%d", vt.nIn+1)
+	for _, p := range pls {
+		vt.emit(map[string]interface{}{"ev": "plant", "in": in, "t": p.d.Cat, "name": p.d.Name, "key": p.d.Key, "st": p.st, "et": p.et, "sl": p.sl, "el": p.el, "thr": c.thr, "shared": true})
+	}
+	vt.match(c, data, v2MatchOpts{retain: true})
+}
+
+// probeC01 re-observes the two recorded findings about the overlap filter on the real Match:
+//   - a copy whose only line is also the first line of a longer copy (unrelated words between them) is dropped: the filter
+//     compares line ranges, and the short copy's range lies inside the long one's (V2RetainShared.cfg);
+//   - a corpus document that is the concatenation of two others outweighs their verbatim copies (documented design of
+//     the filter: "a less confident match of a larger license has more matching tokens").
+func (vt *v2T) probeC01() {
+	c := NewClassifier(0.8)
+	c.AddContent("License", "One", "license.txt", []byte("alpha bravo charlie delta echo foxtrot\n"))
+	c.AddContent("License", "Multi", "license.txt", []byte("golf hotel india juliett kilo\nlima mike november oscar papa\nquebec romeo sierra tango uniform\n"))
+	in := []byte("zqa zqb\nalpha bravo charlie delta echo foxtrot zqc golf hotel india juliett kilo\nlima mike november oscar papa\nquebec romeo sierra tango uniform\nzqd\n")
+	res := c.Match(in)
+	names := map[string]bool{}
+	for _, m := range res.Matches {
+		names[m.Name] = true
+	}
+	vt.emit(map[string]interface{}{"ev": "probe", "id": "C01-copy-inside-lines-of-heavier-copy", "input": string(in),
+		"deviates": names["Multi"] && !names["One"], "got": fmt.Sprint(names)})
+	c2 := NewClassifier(0.8)
+	a := "alpha bravo charlie delta echo foxtrot golf hotel india juliett\nkilo lima mike november oscar papa quebec romeo sierra tango\n"
+	b := "amber birch cedar dune ember fjord grove heath isle jade\nknoll loch marsh north oasis peak quay ridge shore tarn\n"
+	c2.AddContent("License", "A", "license.txt", []byte(a))
+	c2.AddContent("License", "B", "license.txt", []byte(b))
+	c2.AddContent("License", "AB", "license.txt", []byte(a+b))
+	in2 := []byte("zqa zqb\n" + a + "zqc\n" + b + "zqd\n")
+	res2 := c2.Match(in2)
+	names2 := map[string]bool{}
+	for _, m := range res2.Matches {
+		names2[m.Name] = true
+	}
+	vt.emit(map[string]interface{}{"ev": "probe", "id": "C01-concatenated-document-outweighs-copies", "input": string(in2),
+		"deviates": names2["AB"] && !names2["A"] && !names2["B"], "got": fmt.Sprint(names2)})
 }
 
 // Composite user documents and documents registered late.
@@ -268,7 +422,16 @@ func (vt *v2T) plantCaseSep(c *v2C, planted []v2Doc, q int, sepWords int) {
 	data := buf.Bytes()
 	// pieces must tokenise independently (a piece ending in a hyphenated line would join with the next one)
 	if whole := c.tokens(data); len(whole.Tokens) != tokOff {
-		vt.emit(map[string]interface{}{"ev": "skip", "why": "pieces do not tokenise independently", "doc": planted[0].Key})
+		dashed := false
+		for _, d := range planted {
+			dashed = dashed || v2EndsDashed(d.Data)
+		}
+		if dashed {
+			vt.emit(map[string]interface{}{"ev": "skip", "why": "a copy ends in a dash: it joins with what follows", "doc": planted[0].Key})
+		} else {
+			vt.emit(map[string]interface{}{"ev": "panic", "api": "tokenize", "msg": fmt.Sprintf("copies of %s...: the pieces have %d words alone and %d words together, and no copy ends in a dash", planted[0].Key, tokOff, len(whole.Tokens)),
+				"input_b64": vuB64(data[:vuMin(len(data), 6000)])})
+		}
 		return
 	}
 	in := fmt.Sprintf("i%d", vt.nIn+1)
@@ -320,7 +483,10 @@ func (vt *v2T) scenC03() {
 		inputs = append(inputs, []byte(""), []byte("\n\n\n"), []byte("!!! --- ???\n"), []byte("Copyright 2020 Someone\n2020-01-02\n"),
 			[]byte("\x00\x01\xff\xfe binary \x00 data\r\n"), []byte(strings.Repeat("verylongline ", 2000)+"\n"+strings.Repeat("x", 70000)),
 			[]byte("alpha beta gamma delta epsilon zeta eta theta iota kappa lambda mu\r\none two three four five six seven eight nine ten eleven twelve"),
-			[]byte("Copyright 2019 X\nalpha beta gamma delta epsilon zeta eta theta iota kappa lambda mu\nCopyright 2021 Y"))
+			[]byte("Copyright 2019 X\nalpha beta gamma delta epsilon zeta eta theta iota kappa lambda mu\nCopyright 2021 Y"),
+			// other things Unicode calls a line break are not: only "\n" ends a line (U+2028/U+2029 occur in corpus texts, NEL, VT, FF)
+			[]byte("Copyright 2019 X\u2028\u2029\nalpha beta gamma delta epsilon zeta\u2028 eta theta iota\u2029kappa lambda mu\u2028\u2028\u2029\nCopyright 2021 Y\u2028"),
+			[]byte("one two three four five six\u0085 seven\v eight\f nine ten eleven twelve\u2029\u2028\u0085\v\f\nCopyright 2021 Y\r"))
 		n := 25
 		if vt.thorough() {
 			n = 150
@@ -474,6 +640,26 @@ func (vt *v2T) scenC07() {
 		xs = append(xs, append(append(v2EnsureNL(vt.editWords(c, a.Data, 0.05)), vt.oovBlock(c, 2)...), vt.editWords(c, b.Data, 0.05)...))
 		labels = append(labels, "concat/"+a.Key+"+"+b.Key)
 	}
+	// X = a document followed by a noisy copy of itself of the same length (one word replaced in the middle)
+	for k := 0; k < n/8; k++ {
+		a := docs[vt.rng.Intn(len(docs))]
+		ws := strings.Fields(string(a.Data))
+		if len(a.Data) > 5000 || len(ws) < 12 {
+			continue
+		}
+		noisy := string(a.Data)
+		w := ws[len(ws)/2]
+		if i := strings.Index(noisy[len(noisy)/3:], " "+w+" "); i >= 0 {
+			i += len(noisy) / 3
+			noisy = noisy[:i+1] + vt.oovWord(c) + noisy[i+1+len(w):]
+		}
+		sep := ""
+		if vt.rng.Intn(2) == 0 {
+			sep = string(vt.oovBlock(c, 1))
+		}
+		xs = append(xs, []byte(string(v2EnsureNL(a.Data))+sep+noisy))
+		labels = append(labels, "selfconcat/"+a.Key)
+	}
 	// the recorded instances of the open finding C07-negative-offset-clamp are always part of the run
 	if dir := os.Getenv("VERIF_CASES"); dir != "" {
 		files, _ := filepath.Glob(filepath.Join(dir, "C07-*.txt"))
@@ -492,10 +678,29 @@ func (vt *v2T) scenC07() {
 			continue
 		}
 		p, s := vt.oovBlock(c, 5), vt.oovBlock(c, 5)
+		// spellings X uses inside its lines that are list markers at the start of a line ("version 2.", "clause a."): the
+		// block in front of X starts some of its lines with them (no token there; a word in X)
+		var mk []string
+		for _, ln := range strings.Split(string(x), "\n") {
+			for i, w := range strings.Fields(ln) {
+				if i > 0 && v2HeaderLike(w) {
+					mk = append(mk, w)
+				}
+			}
+		}
+		for k := 0; k < 2 && len(mk) > 0; k++ {
+			p = append([]byte(mk[vt.rng.Intn(len(mk))]+" "+vt.oovWord(c)+"\n"), p...)
+		}
 		pd := c.tokens(p)
 		pxs := append(append(append([]byte(nil), p...), x...), s...)
-		if whole := c.tokens(pxs); len(whole.Tokens) != len(pd.Tokens)+len(xd.Tokens)+len(c.tokens(s).Tokens) {
+		if v2EndsDashed(x) {
 			continue // X ends in a hyphenated line: joins with S, different text
+		}
+		if whole := c.tokens(pxs); len(whole.Tokens) != len(pd.Tokens)+len(xd.Tokens)+len(c.tokens(s).Tokens) {
+			// nothing but a pending half-word carries over a line break: the words of a block, of X and of a block are the words of the three
+			vt.emit(map[string]interface{}{"ev": "panic", "api": "tokenize", "msg": fmt.Sprintf("%s: %d + %d + %d words alone, %d words as block . X . block, and no piece ends in a dash",
+				labels[xi], len(pd.Tokens), len(xd.Tokens), len(c.tokens(s).Tokens), len(whole.Tokens)), "input_b64": vuB64(pxs[:vuMin(len(pxs), 6000)])})
+			continue
 		}
 		var clampsA, clampsB []string
 		VerifSink = nil
